@@ -21,6 +21,8 @@ def scenarios(thorough):
          "listeners": ["node", "apside", "signal", "max"]},
         {"name": "geo-kepler-900", "orbit": "kep", "kep": [42164e3, 0.001, 0.1], "propagator": "kepler", "step": 900,
          "duration": 172800, "listeners": ["node", "apside", "umbra", "penumbra", "anomaly:true:2.5"]},
+        {"name": "leo-kepler-skyline-20", "orbit": "kep", "kep": [6978e3, 0.001, 1.082], "propagator": "kepler", "step": 20, "duration": 86400,
+         "listeners": ["mask@skyline", "signal@skyline", "max@skyline"]},
     ]
     if thorough:
         sc += [
